@@ -292,6 +292,28 @@ def check(prop, tier, seed):
             f.write(json.dumps(v, separators=(",", ":")) + "\n")
     obs_path = os.path.join(wd, "obs.ndjson")
     harness_replay(inp_path, obs_path, jobs=8)
+    if plan.get("reencode"):
+        # C07, second direction: SDK-written bytes -> canonical re-encoding by the specification -> prost reads both
+        recs = os.path.join(wd, "reenc.ndjson")
+        k = 0
+        with open(recs, "w") as f:
+            for l in open(obs_path):
+                e = json.loads(l)
+                if e.get("ev") == "wire_encode" and e["out"].get("tag") == "ok":
+                    f.write(json.dumps({"wtype": e["in"]["wtype"], "bytes": e["out"]["bytes"]}) + "\n")
+                    k += 1
+        if k:
+            vecs, st = generate("reenc", "Gen_WireReenc.tla", "Gen_WireReenc.cfg", wd, "impl+gen", workers=8, env={"REENC": recs})
+            gen_stats.append(st)
+            inp2, obs2 = os.path.join(wd, "inputs2.ndjson"), os.path.join(wd, "obs2.ndjson")
+            with open(inp2, "w") as f:
+                for v in vecs:
+                    f.write(json.dumps(v, separators=(",", ":")) + "\n")
+            harness_replay(inp2, obs2, jobs=8)
+            with open(obs_path, "a") as f:
+                f.write(open(obs2).read())
+            os.remove(inp2); os.remove(obs2)
+        os.remove(recs)
     n_events, bad, jstates, jtrans = judge(obs_path, wd, chunk=plan.get("chunk", 3000))
     # verdicts
     known = load_known()
